@@ -1327,9 +1327,17 @@ BUILTINS = {
     'omp_set_dynamic': lambda s, a, i: s.events.append(('omp_set_dynamic', a[0])),
     'omp_set_num_threads': lambda s, a, i: s.events.append(('omp_set_num_threads', a[0])),
     'omp_get_max_threads': lambda s, a, i: s.opts.get('omp_max_threads', 4),
-    'omp_get_thread_num': lambda s, a, i: 0,
-    'omp_get_num_threads': lambda s, a, i: 1,
+    # default world: a team of one.  Two-thread world (opts['omp_world'] == 'upper2', used for memory-safety sinks only): the abstract
+    # thread is thread 1 of a team of two and executes the upper half of every static work-sharing loop, which is what libomp
+    # and libgomp give thread 1; a team of two is possible for every region that does not pin its team to one thread.
+    'omp_get_thread_num': lambda s, a, i: 1 if getattr(s, 'team2', False) else 0,
+    'omp_get_num_threads': lambda s, a, i: 2 if getattr(s, 'team2', False) else 1,
 }
+
+
+def _push_num_threads(s, a, i):
+    s.events.append(('push_num_threads', a[2]))
+    s._pushed = a[2]
 
 
 def _kmpc_fork_call(s, args, ins):
@@ -1343,6 +1351,9 @@ def _kmpc_fork_call(s, args, ins):
     s.iter_no = 0
     s.cur_iter = None
     s.par_log = []
+    pushed = getattr(s, '_pushed', None)
+    s._pushed = None
+    s.team2 = s.opts.get('omp_world') == 'upper2' and (pushed is None or (isinstance(pushed, int) and pushed >= 2))
     site = s.mod.loc(ins.dbg) if ins is not None else (None, None)
     caller = s.stack[-1][0] if s.stack else None
     g = s.new_region('gtid', 'alloca', extent=4)
@@ -1355,6 +1366,7 @@ def _kmpc_fork_call(s, args, ins):
         reg = dict(site=site, caller=caller, fn=fnp.name, iterations=s.iter_no, log=s.par_log)
         s.par_regions.append(reg)
         s.par = None
+        s.team2 = False
         s.cur_iter = None
         s.par_log = []
     return None
@@ -1365,8 +1377,27 @@ def _kmpc_static_init(s, args, ins):
     if not isinstance(sched, int):
         raise Incomplete('symbolic OpenMP schedule')
     sz = 8 if ins is None or 'init_8' in ins.text else 4
-    if sched == 34:        # static, unchunked: the single abstract thread owns the whole iteration space
+    team2 = getattr(s, 'team2', False)
+    mask = (1 << (8 * sz)) - 1
+    if sched == 34 and team2:      # thread 1 of 2: the upper half [lo + ceil(n/2), up]
+        lo = s.load_cell(plower, sz)
+        up = s.load_cell(pupper, sz)
+        if not (isinstance(lo, int) and isinstance(up, int) and incr == 1):
+            raise Incomplete('symbolic loop bounds in the two-thread world')
+        signed = not (ins is not None and ('init_8u' in ins.text or 'init_4u' in ins.text))
+        lo_, up_ = (to_signed(lo, 8 * sz), to_signed(up, 8 * sz)) if signed else (lo, up)
+        n = up_ - lo_ + 1
+        if n > 0:
+            s.store_cell(plower, (lo_ + (n + 1) // 2) & mask, sz)
+    elif sched == 34:      # static, unchunked: the single abstract thread owns the whole iteration space
         pass
+    elif sched == 33 and team2:    # thread 1 of 2: chunks 1, 3, 5, ...
+        lo = s.load_cell(plower, sz)
+        if not (isinstance(lo, int) and isinstance(chunk, int)):
+            raise Incomplete('symbolic chunk bounds')
+        s.store_cell(plower, (lo + chunk) & mask, sz)
+        s.store_cell(pupper, (lo + 2 * chunk - 1) & mask, sz)
+        s.store_cell(pstride, 2 * chunk, sz)
     elif sched == 33:      # static, chunked: chunks are visited one after the other (stride = chunk * 1 thread)
         lo = s.load_cell(plower, sz)
         if not (isinstance(lo, int) and isinstance(chunk, int)):
@@ -1413,7 +1444,7 @@ BUILTINS.update({
     '__kmpc_for_static_init_4u': _kmpc_static_init, '__kmpc_for_static_init_4': _kmpc_static_init,
     '__kmpc_for_static_fini': lambda s, a, i: None,
     '__kmpc_global_thread_num': lambda s, a, i: 0,
-    '__kmpc_push_num_threads': lambda s, a, i: s.events.append(('push_num_threads', a[2])),
+    '__kmpc_push_num_threads': _push_num_threads,
     '__kmpc_barrier': lambda s, a, i: None,
     # `parallel ... if(cond)`: when the condition is false the region body is called directly between these two markers
     '__kmpc_serialized_parallel': lambda s, a, i: None,
